@@ -58,6 +58,38 @@ def iir_of(c):
 MODES = ['positive', 'negative', 'both']
 MATRIX = np.array([[1.0, -1.0], [0.25, 1.5]])
 META = {'m': 1}
+# metadata values need not be plain numbers or strings: a multi-element array (per-channel gains) and an object without
+# __eq__ compare equal only by identity -- `mdobj` cases carry both, the very same objects on every chunk
+GAIN = np.array([1.0, 2.5])
+
+
+class _Tag:
+    pass
+
+
+TAG = _Tag()
+
+
+def case_meta(c):
+    return dict(META, gain=GAIN, tag=TAG) if c.get('mdobj') else dict(META)
+
+
+def md_eq(md, want):
+    """dict equality that compares array / object values by identity or element-wise"""
+    if not isinstance(md, dict) or set(md) != set(want):
+        return False
+    for k, v in want.items():
+        w = md[k]
+        if w is v:
+            continue
+        if isinstance(v, np.ndarray) or isinstance(w, np.ndarray):
+            if not (isinstance(v, np.ndarray) and isinstance(w, np.ndarray) and np.array_equal(v, w)):
+                return False
+        elif isinstance(v, _Tag) or isinstance(w, _Tag):
+            return False            # a Tag has no value: another Tag object is not "the same metadata"
+        elif w != v:
+            return False
+    return True
 INIT = 0.5
 TOL = 1e-12
 
@@ -340,6 +372,8 @@ class C12(Spec):
         if stage == 'rms' and s0 % max(p1, 1):
             s0 = (s0 // max(p1, 1)) * max(p1, 1)
         c = {'kind': stage, 'arr': arr, 'N': n, 'chunks': list(chunks), 'p1': p1, 'p2': p2, 's0': s0, 'seed': seed}
+        if arr.startswith('pd') and seed % 5 == 4:
+            c['mdobj'] = True
         if seed % 7 in (1, 2, 3) and n > 9:      # random-stream cases only (the exhaustive scope keeps float64)
             c['dtype'] = {1: 'int32', 2: 'int32', 3: 'float32'}[seed % 7]
             if c['dtype'] == 'int32' and stage in ('rms', 'derivative', 'auto_th'):
@@ -718,9 +752,10 @@ class C12(Spec):
         else:
             ch = 'ch?'
         md = o.metadata
-        if md == META:
+        want = case_meta(c)
+        if md_eq(md, want):
             mdt = 'md'
-        elif isinstance(md, dict) and 'auto_th' in md and {k: v for k, v in md.items() if k != 'auto_th'} == META:
+        elif isinstance(md, dict) and 'auto_th' in md and md_eq({k: v for k, v in md.items() if k != 'auto_th'}, want):
             mdt = 'md+th'
         elif md == {}:
             mdt = 'mdempty'
@@ -745,7 +780,7 @@ class C12(Spec):
         annotated = c['arr'].startswith('pd')
         if annotated:
             s0 = np.int64(c['s0']) if rep_of(c).get('s0np') else c['s0']
-            xs = P.PipelineData(x, fs_of(c), s0=s0, channel=in_channel(c), metadata=dict(META))
+            xs = P.PipelineData(x, fs_of(c), s0=s0, channel=in_channel(c), metadata=case_meta(c))
         else:
             xs = x
         chunks, pos, shift = [], 0, 0
